@@ -64,6 +64,10 @@ theorem edge_end_points (d : Bool) (ops : List Op) (e a b : Nat)
   have := hc.views.edge_listed e a b h
   exact ⟨outE_some_hasNode this.1, inE_some_hasNode this.2.1, this.1, this.2.1, this.2.2⟩
 
+/-- the predicate the driver evaluates on every state reported by the implementation
+(`G.check`, names the first failing clause) is exactly the invariant -/
+theorem check_is_consistent (g : G) : g.check = none ↔ Consistent g := check_iff g
+
 /-! ## An operation that raises leaves the graph unchanged -/
 
 /-- **raises_unchanged**, for every operation on every reachable (consistent) state -/
